@@ -384,7 +384,7 @@ func c02Index(c *Ctx, p *Prog) {
 					upd = true
 				}
 			case *ssa.Call:
-				if b, ok := x.Call.Value.(*ssa.Builtin); ok && b.Name() == "delete" {
+				if b, ok := x.Call.Value.(*ssa.Builtin); ok && (b.Name() == "delete" || b.Name() == "clear") {
 					if f, _ := loadOfField(x.Call.Args[0]); f == posF {
 						del = true
 					}
@@ -510,7 +510,7 @@ func c02Reset(c *Ctx, p *Prog) {
 				if _, isMap := f.Type().Underlying().(*types.Map); isMap {
 					eachInstr(fn, func(_ *ssa.BasicBlock, in ssa.Instruction) {
 						if call, ok := in.(*ssa.Call); ok {
-							if b, ok := call.Call.Value.(*ssa.Builtin); ok && b.Name() == "delete" {
+							if b, ok := call.Call.Value.(*ssa.Builtin); ok && (b.Name() == "delete" || b.Name() == "clear") {
 								if ff, _ := loadOfField(call.Call.Args[0]); ff == f {
 									stored = true
 								}
